@@ -1,4 +1,6 @@
 import LoraVerif.Props.C09
+import LoraVerif.Props.TieA.RegionDispatch
+import LoraVerif.Props.TieA.RegionBand
 import LoraVerif.Props.TieA.C09
 import LoraVerif.Props.C05Size
 import LoraVerif.Props.TieA.PlanSelect
